@@ -85,7 +85,8 @@ def sim_modules():
             'specific_yield': sy, 'transmissivity': tm,
             'simulate_rise': loader.load('spowtd.simulate_rise', 'R', bindings=bind, submodules=sub),
             'simulate_recession': loader.load('spowtd.simulate_recession', 'R', bindings=bind, submodules=sub),
-            'pestfiles': loader.load('spowtd.pestfiles', 'R', bindings={'yaml': ys}),
+            # pestfiles only formats the parameter values: they stay the parsed doubles
+            'pestfiles': loader.load('spowtd.pestfiles', 'R', bindings={'yaml': libstubs.YamlShim(lift=False)}),
         }
         _CACHE['sim'] = (mods, ys)
     return _CACHE['sim']
